@@ -71,6 +71,9 @@ class Modules:
 		"""
 		if module_path not in self.__modules:
 			self.__load_libraries(module_path)
+
+		# XXX 標準ライブラリーのロード中に自身がロードされる場合があるため再確認(typing, collections.abc)
+		if module_path not in self.__modules:
 			self.__modules[module_path] = self.__loader.load(ModulePath(module_path, language))
 			self.__load_dependencies(self.__modules[module_path])
 			self.__loader.preprocess(self.__modules[module_path])
